@@ -244,7 +244,9 @@ func (x *Exec) Run() {
 		}
 		for k := range x.FC.Loops {
 			if !used[k] {
-				x.unsupported("loop contract %q of %s does not bind to any loop", k, x.short)
+				// a loop invariant is a proof witness, not a claim: when the loop it was written for is gone (replaced by a
+				// library call, moved into a helper) the remaining obligations decide alone; recorded, not failed
+				x.Assumptions[fmt.Sprintf("note: loop contract %q of %s binds to no loop in the current code (ignored; the function's other obligations are unaffected)", k, x.short)] = true
 			}
 		}
 	}
